@@ -144,6 +144,76 @@ class _Universal(ast.NodeTransformer):
 
 
 # ---------------------------------------------------------------------------
+# getattr / setattr with a constant attribute name
+
+def _plain_attr_name(c):
+    import keyword
+    return isinstance(c, ast.Constant) and isinstance(c.value, str) and \
+        c.value.isidentifier() and not keyword.iskeyword(c.value) and not (
+            c.value.startswith('__') and not c.value.endswith('__'))
+
+
+def _plain_receiver(e):
+    """A name or a chain of attribute reads on a name (pure, repeatable)."""
+    while isinstance(e, ast.Attribute):
+        e = e.value
+    return isinstance(e, ast.Name)
+
+
+class _ConstAttr(ast.NodeTransformer):
+    """getattr(X, 'a') -> X.a;  the statement setattr(X, 'a', V) -> X.a = V.
+    The name is a literal identifier (not a private name `__a`, which the
+    attribute spelling would mangle inside a class), X is a name / attribute
+    chain (so evaluating it after V instead of before makes no difference),
+    no default argument, no keywords / starred arguments."""
+
+    def __init__(self):
+        self.n = 0
+
+    @staticmethod
+    def _args_ok(call, n):
+        return isinstance(call.func, ast.Name) and len(call.args) == n and \
+            not call.keywords and not any(isinstance(a, ast.Starred)
+                                          for a in call.args) and \
+            _plain_attr_name(call.args[1]) and _plain_receiver(call.args[0])
+
+    def visit_Call(self, node):
+        self.generic_visit(node)
+        if isinstance(node.func, ast.Name) and node.func.id == 'getattr' and \
+                self._args_ok(node, 2):
+            self.n += 1
+            return ast.copy_location(ast.Attribute(
+                value=node.args[0], attr=node.args[1].value, ctx=ast.Load()),
+                node)
+        return node
+
+    def visit_Expr(self, node):
+        self.generic_visit(node)
+        v = node.value
+        if isinstance(v, ast.Call) and isinstance(v.func, ast.Name) and \
+                v.func.id == 'setattr' and self._args_ok(v, 3):
+            self.n += 1
+            tgt = ast.copy_location(ast.Attribute(
+                value=v.args[0], attr=v.args[1].value, ctx=ast.Store()), v)
+            return ast.copy_location(ast.Assign(targets=[tgt],
+                                                value=v.args[2]), node)
+        return node
+
+
+def _const_attr_access(node, log, q):
+    # not when the function re-binds the builtin names
+    if _names(node, ast.Store) & {'getattr', 'setattr'}:
+        return
+    t = _ConstAttr()
+    t.visit(node)
+    if t.n:
+        log.append('%s: %d getattr/setattr call(s) with a literal attribute '
+                   'name written as attribute access' % (q, t.n))
+        ast.fix_missing_locations(node)
+
+
+
+# ---------------------------------------------------------------------------
 # keyword arguments -> positional (package functions with a unique name)
 
 _SIGS = None
@@ -559,6 +629,43 @@ def _simple_helper(fn):
     return body
 
 
+def _read_once_unconditionally(body, name):
+    """`name` is read exactly once in the statement list, and that read is
+    evaluated exactly once whenever the list is entered: it belongs to a
+    top-level statement (not to a nested block), precedes any jump, and does
+    not sit under a short-circuit / conditional expression, a lambda, a
+    comprehension or a while test."""
+    total = sum(1 for s_ in body for x in ast.walk(s_)
+                if isinstance(x, ast.Name) and x.id == name)
+    if total != 1:
+        return False
+    for s_ in body:
+        if isinstance(s_, (ast.While, ast.Try, ast.FunctionDef,
+                           ast.AsyncFunctionDef, ast.ClassDef)):
+            return False
+        stack = [s_]
+        while stack:
+            n = stack.pop()
+            if isinstance(n, ast.Name) and n.id == name:
+                return True
+            if isinstance(n, (ast.BoolOp, ast.IfExp, ast.Lambda,
+                              ast.ListComp, ast.SetComp, ast.DictComp,
+                              ast.GeneratorExp)):
+                continue
+            for fld, val in ast.iter_fields(n):
+                if fld in ('body', 'orelse', 'finalbody', 'handlers') and \
+                        isinstance(n, ast.stmt):
+                    continue
+                if isinstance(val, ast.AST):
+                    stack.append(val)
+                elif isinstance(val, list):
+                    stack.extend(v for v in val if isinstance(v, ast.AST))
+        if any(isinstance(x, (ast.Return, ast.Raise, ast.Break, ast.Continue))
+               for x in ast.walk(s_)):
+            return False
+    return False
+
+
 def _inline_helpers(tree, modname, ref, log):
     known = set(ref.get(modname, {})) - {'__sha1__'}
     if not known:
@@ -653,15 +760,27 @@ def _inline_helpers(tree, modname, ref, log):
                         stored |= _names(s_, ast.Store)
                     pre = []
                     sub = {}
+                    ren = {n: tag + n for n in stored}
                     for p_, a_ in binding.items():
                         if p_ in stored:
                             pre.append(ast.Assign(
                                 targets=[ast.Name(id=tag + p_,
                                                   ctx=ast.Store())],
                                 value=copy.deepcopy(a_)))
+                        elif any(isinstance(x, ast.Call)
+                                 for x in ast.walk(a_)) and \
+                                not _read_once_unconditionally(body, p_):
+                            # an argument that makes a call is evaluated once,
+                            # before the body: it may only be substituted for
+                            # a parameter that is read exactly once, on every
+                            # path; otherwise it is kept in a local
+                            pre.append(ast.Assign(
+                                targets=[ast.Name(id=tag + p_,
+                                                  ctx=ast.Store())],
+                                value=copy.deepcopy(a_)))
+                            ren[p_] = tag + p_
                         else:
                             sub[p_] = a_
-                    ren = {n: tag + n for n in stored}
                     # `a, b = helper(...)` with `return x, y` of helper
                     # locals: the locals become the targets themselves
                     direct = False
@@ -1737,6 +1856,93 @@ def _inline_hoisted(fn, rf, log, q):
     ast.fix_missing_locations(fn)
 
 
+def _truth_context_names(fn):
+    """ids of the Name nodes that are read only for their truth value: the
+    test of if / while / conditional expression / assert, the operand of
+    `not`, an operand of and/or that is itself in such a position."""
+    out = set()
+
+    def mark(e):
+        if isinstance(e, ast.Name):
+            out.add(id(e))
+        elif isinstance(e, ast.BoolOp):
+            for v in e.values:
+                mark(v)
+    for n in _own_nodes(fn):
+        if isinstance(n, (ast.If, ast.While, ast.IfExp, ast.Assert)):
+            mark(n.test)
+        elif isinstance(n, ast.UnaryOp) and isinstance(n.op, ast.Not):
+            mark(n.operand)
+        elif isinstance(n, ast.comprehension):
+            for c in n.ifs:
+                mark(c)
+    return out
+
+
+def _is_test_expr(e):
+    """A comparison, or not / and / or over comparisons."""
+    if isinstance(e, ast.Compare):
+        return True
+    if isinstance(e, ast.UnaryOp) and isinstance(e.op, ast.Not):
+        return _is_test_expr(e.operand)
+    if isinstance(e, ast.BoolOp):
+        return all(_is_test_expr(v) for v in e.values)
+    return False
+
+
+def _flags_from_tests(fn, rf, log, q):
+    """x = <comparison>   ->   x = False; if <comparison>: x = True
+    when the reference sets a flag that way under the very same test.  Side
+    conditions: the statement is the only binding of x in the function, the
+    right-hand side is built from comparisons only, the reference has an
+    `if` with that test text and a local defined by exactly {False, True},
+    and x is read only for its truth value (so that the comparison's result
+    object and the constant True / False cannot be told apart).  The
+    comparison is still evaluated exactly once, at the same place."""
+    ref_flags = {nm for nm, ds in rf.get('defs', {}).items()
+                 if set(ds) == {'True', 'False'}}
+    if not ref_flags:
+        return
+    ref_tests = {t[0] for t in rf.get('tests', [])}
+    params, locs = local_order(fn)
+    for blk in _blocks(fn):
+        for i, st in enumerate(list(blk)):
+            if not (isinstance(st, ast.Assign) and len(st.targets) == 1 and
+                    isinstance(st.targets[0], ast.Name) and
+                    _is_test_expr(st.value)):
+                continue
+            x = st.targets[0].id
+            if x in params or _n(st.value) not in ref_tests:
+                continue
+            if not (x in ref_flags or (ref_flags - set(locs)
+                                       and x not in rf.get('locals', []))):
+                continue
+            if sum(1 for n in ast.walk(fn) if isinstance(n, ast.Name) and
+                   n.id == x and isinstance(n.ctx, (ast.Store, ast.Del))) != 1:
+                continue
+            if any(isinstance(n, (ast.Global, ast.Nonlocal)) and x in n.names
+                   for n in ast.walk(fn)):
+                continue
+            truth = _truth_context_names(fn)
+            reads = [n for n in ast.walk(fn) if isinstance(n, ast.Name) and
+                     n.id == x and isinstance(n.ctx, ast.Load)]
+            if not reads or any(id(n) not in truth for n in reads):
+                continue
+            init = ast.copy_location(ast.Assign(
+                targets=[ast.Name(id=x, ctx=ast.Store())],
+                value=ast.Constant(value=False)), st)
+            setit = ast.copy_location(ast.Assign(
+                targets=[ast.Name(id=x, ctx=ast.Store())],
+                value=ast.Constant(value=True)), st)
+            cond = ast.copy_location(ast.If(test=st.value, body=[setit],
+                                            orelse=[]), st)
+            k = next(j for j, s_ in enumerate(blk) if s_ is st)
+            blk[k:k + 1] = [init, cond]
+            log.append('%s: flag %s = %s written as False / if-test: True'
+                       % (q, x, _n(st.value)))
+    ast.fix_missing_locations(fn)
+
+
 def _inline_literal_iterables(fn, rf, log, q):
     """K = ['a', 'b', ...] hoisted out of `for p in K:` headers -> the
     display back in the header(s), where the reference iterates over exactly
@@ -2595,10 +2801,12 @@ def canonicalise(tree, modname, text=None):
         _inline_hoisted(fn, rf, log, q)
         _inline_literal_iterables(fn, rf, log, q)
         _pipeline_to_locals(fn, rf, log, q)
+        _flags_from_tests(fn, rf, log, q)
         _restore_bool_returns(fn, rf, log, q)
         _dictcomps_to_loops(fn, rf, log, q)
         _loops_to_comprehensions(fn, rf, log, q)
         _unroll_literal_loops(fn, rf, log, q)
+        _const_attr_access(fn, log, q)
         _orient_ifs(fn, rf, log, q)
         _loops_to_reference(fn, rf, log, q)
         _SplitTupleAssign().visit(fn)
